@@ -92,7 +92,7 @@ def patterns(fam):
         return [
             (L('I'),), (L('k'), L('I'), L('D0')),
             (L('MvI'), L('Mv')), (L('Mv'), L('MvI')), (T(L('Mv')), L('Mv')), (L('Mv'), T(L('Mv'))),
-            (I(L('Mv')), L('Mv')), (L('Mn'), T(L('Mn'))), (L('Mn'), L('Mn', 1)), (L('M3c'), L('M3')), (T(L('M3')), L('M3')), (L('M3b'), L('M3')),
+            (I(L('Mv')), L('Mv')), (L('Mn'), T(L('Mn'))), (L('Mn'), L('Mn', 1)), (L('M3c'), L('M3')), (T(L('M3')), L('M3')), (L('M3b'), L('M3')), (L('M3d'), L('M3b')), (T(L('M3b')), L('M3b')),
             (T(L('Rv')), L('Rv')), (L('Rv'), T(L('Rv'))), (T(L('Rs')), L('Rs')), (L('Rs'), T(L('Rs'))),
             (L('Rid'),), (L('Pn'),), (L('Rid'), L('Pn'), L('I')),
             (T(L('Pe')), L('Pe')), (L('Pe'), T(L('Pe'))), (T(L('P0')), L('P0')), (L('P0'), T(L('P0'))),
